@@ -48,11 +48,12 @@ type survivor struct {
 }
 
 type result struct {
-	Case       caseSpec `json:"case"`
-	HarnessPid int      `json:"harness_pid"`
-	Errors     []string `json:"harness_errors,omitempty"`
-	StartErr   string   `json:"start_error,omitempty"`
-	Vacuous    string   `json:"vacuous,omitempty"` // the stop met no running subprocess: nothing is demanded
+	CancelPending bool     `json:"cancel_call_pending_after_2s,omitempty"`
+	Case          caseSpec `json:"case"`
+	HarnessPid    int      `json:"harness_pid"`
+	Errors        []string `json:"harness_errors,omitempty"`
+	StartErr      string   `json:"start_error,omitempty"`
+	Vacuous       string   `json:"vacuous,omitempty"` // the stop met no running subprocess: nothing is demanded
 
 	Phase             string `json:"phase"` // of the tree at the stop request: nothing spawned | during spawn | ready
 	IsOnAtStop        bool   `json:"ison_at_stop"`
@@ -616,7 +617,13 @@ func (h *harness) run(loggers *memLoggers) {
 		<-parent.Done()
 		stopAt = time.Now()
 	case "Cancel":
-		cur.Load().Cancel()
+		// issued from another goroutine, as a user would: a Cancel() that does not come back must not take the monitor with it
+		cancelCall := goCall(func() error { cur.Load().Cancel(); return nil })
+		select {
+		case <-cancelCall.done:
+		case <-time.After(2 * time.Second):
+			res.CancelPending = true // Cancel() had not returned 2 s after it was issued
+		}
 	case "Stop":
 		stopCall = goCall(cur.Load().Stop)
 		res.Awaited = "Stop"
